@@ -342,3 +342,57 @@ func pathCompiles(template string) bool {
 	_, err := newPathExpression(template)
 	return err == nil
 }
+
+// --- what a template binds (C04), stated over the URL path p itself ------------------
+
+// bindsAt: template token k declares a variable (custom verb split off first).
+func bindsAt(R []string, k int, hv bool) bool { return isVarTok(effTok(R[k], hv)) }
+
+// nameAt: the declared name: between "{" and ":" or "}".
+func nameAt(R []string, k int, hv bool) string {
+	t := effTok(R[k], hv)
+	if c := strings.Index(t, ":"); c >= 0 {
+		return t[1:c]
+	}
+	return t[1:strings.Index(t, "}")]
+}
+
+// joinFromP: the URL segments from position k on, joined by "/".
+func joinFromP(p string, k int) string {
+	if k >= tokCount(p) {
+		return ""
+	}
+	if k == tokCount(p)-1 {
+		return tokAt(p, k)
+	}
+	return tokAt(p, k) + "/" + joinFromP(p, k+1)
+}
+
+// segAt: the URL segment at position k, minus the custom-verb suffix ":verb" when the template token carries the verb.
+func segAt(R []string, p string, k int, hv bool) string {
+	if k >= tokCount(p) {
+		return ""
+	}
+	if hv && hasVerb(R[k]) {
+		return tokAt(p, k)[:len(tokAt(p, k))-len(verbOf(R[k]))-1]
+	}
+	return tokAt(p, k)
+}
+
+// valueAt: exactly the URL text the variable stands for: the whole remaining path for a tail wildcard,
+// the segment for a plain or regex variable, minus the literal suffix of the template token.
+func valueAt(R []string, p string, k int, hv bool) string {
+	t := effTok(R[k], hv)
+	if strings.Index(t, ":") >= 0 {
+		if isTailTok(t) {
+			return joinFromP(p, k)
+		}
+		return segAt(R, p, k, hv)
+	}
+	return segAt(R, p, k, hv)[:len(segAt(R, p, k, hv))-len(suffixOfTok(t))]
+}
+
+// lastName: no later token (below n) declares the same name.
+func lastName(R []string, n int, k int, hv bool) bool {
+	return forall(k+1, n, func(k2 int) bool { return !(bindsAt(R, k2, hv) && nameAt(R, k2, hv) == nameAt(R, k, hv)) })
+}
